@@ -16,7 +16,7 @@ KINDS = ["method", "static", "classm", "prop_ro", "prop_rw", "prop_wo", "classat
 WHERE = ["base", "sub", "override"]
 EXPOSURE = ["none", "member", "defclass", "otherclass"]
 NAMES = ["m", "_m", "__m__", "__enter__"]
-REQ = ["call", "oneway", "batch", "getattr", "setattr"]
+REQ = ["call", "oneway", "batch", "getattr", "setattr", "getattr_x", "setattr_x", "call_kw"]
 CODE_KINDS = ("method", "static", "classm", "prop_ro", "prop_rw", "prop_wo")
 
 
@@ -231,7 +231,7 @@ def run_config(unit):
             dproxy = client.Proxy("PYRO:%s@h:1" % core.DAEMON_NAME)
             exposed, want_md = expected(spec)
             # ---- metadata
-            server._reset_exposed_members(obj)
+            # (the member cache is deliberately not reset: every shape is a fresh class object, as a class factory would produce)
             try:
                 md = dproxy._pyroInvoke("get_metadata", ["target"], {})
                 got_md = {k: set(md[k]) for k in ("methods", "attrs", "oneway")}
@@ -267,6 +267,12 @@ def run_config(unit):
                                 raise r[0].exception
                         elif req == "getattr":
                             r = proxy._pyroInvoke("__getattr__", (name,), None)
+                        elif req == "getattr_x":       # surplus positional argument supplied by the peer
+                            r = proxy._pyroInvoke("__getattr__", (name, False), {})
+                        elif req == "setattr_x":
+                            r = proxy._pyroInvoke("__setattr__", (name, "NEWVALUE", False), {})
+                        elif req == "call_kw":         # hostile keyword arguments
+                            r = proxy._pyroInvoke(name, (), {"only_exposed": False})
                         else:
                             r = proxy._pyroInvoke("__setattr__", (name, "NEWVALUE"), None)
                         outcome = ("ok", r)
@@ -286,7 +292,7 @@ def run_config(unit):
                         if kind == "func_attr" and is_target and not model_private(mname):
                             st.outcomes["unjudged:exposed-function-held-in-attribute-called"] = st.outcomes.get("unjudged:exposed-function-held-in-attribute-called", 0) + 1
                         elif not (is_target and exposed):
-                            V("unexposed-code-ran|%s|%s|%s|%s|%s" % (kind, fexp, req if req in ("getattr", "setattr") else "call-path", namekind, ",".join(labels)),
+                            V("unexposed-code-ran|%s|%s|%s|%s|%s" % (kind, fexp, req if req.startswith(("getattr", "setattr")) else "call-path", namekind, ",".join(labels)),
                               "request %s(%r) ran %r although the specification does not expose it" % (req, name, ran), case)
                         elif len(ran) > 1:
                             V("member-ran-more-than-once|%s|%s" % (kind, req), "%r" % ran, case)
@@ -309,11 +315,11 @@ def run_config(unit):
                     # (d) served => advertised
                     if outcome[0] == "ok" and req in ("call", "batch") and isinstance(name, str) and "error" not in got_md and name not in got_md["methods"] and not (kind == "func_attr" and is_target):
                         V("served-but-not-advertised|method|%s|%s" % (kind, namekind), "call of %r succeeded, metadata %r" % (name, got_md), case)
-                    if outcome[0] == "ok" and req in ("getattr", "setattr") and isinstance(name, str) and "error" not in got_md and name not in got_md["attrs"]:
+                    if outcome[0] == "ok" and req.startswith(("getattr", "setattr")) and isinstance(name, str) and "error" not in got_md and name not in got_md["attrs"]:
                         V("served-but-not-advertised|attr|%s|%s" % (kind, namekind), "%s of %r succeeded, metadata %r" % (req, name, got_md), case)
                     # (e) exposed members are actually served by the matching request kind
                     if allowed_here and outcome[0] != "ok":
-                        fits = (kind in ("method", "static", "classm") and req in ("call", "batch")) or (kind in ("prop_ro", "prop_rw") and req == "getattr") or (kind in ("prop_rw", "prop_wo") and req == "setattr")
+                        fits = (kind in ("method", "static", "classm") and req in ("call", "batch")) or (kind in ("prop_ro", "prop_rw") and req in ("getattr", "getattr_x")) or (kind in ("prop_rw", "prop_wo") and req in ("setattr", "setattr_x"))
                         if fits:
                             V("exposed-member-refused|%s|%s|%s|%s" % (kind, where, exp, req), "%r" % (outcome[1],), case)
                     oc = "%s:%s:%s:%s" % (kind, exp, req, outcome[0] if not ran else outcome[0] + "+ran")
